@@ -110,15 +110,18 @@ def transactSell (p : Position α) (q price c : α) : Position α :=
   { p with avgS := ((p.avgS * p.sellQ) + (q * price)) / (p.sellQ + q),
            sellQ := p.sellQ + q, comS := p.comS + c }
 
-/-- `Position.transact` (the asset check is the caller's: the handler looks the position up by asset). -/
+/-- `Position.transact` (the asset check is the caller's: the handler looks the position up by asset).
+The trade's price and timestamp are validated (`update_current_price`) before the running quantities and
+averages are touched, so a refused transaction leaves them as they were (fix F4). -/
 def transact (p : Position α) (t : Txn α) : Position α × Option Err :=
   if t.qty = 0 then (p, none)
   else
-    let p1 := if 0 < t.qty then p.transactBuy (ofInt t.qty) t.price t.commission
-              else p.transactSell (ofInt (-t.qty)) t.price t.commission
-    match p1.updatePrice t.price t.time with
-    | (p2, some e) => (p2, some e)
-    | (p2, none) => ({ p2 with clock := t.time }, none)
+    match p.updatePrice t.price t.time with
+    | (p1, some e) => (p1, some e)
+    | (p1, none) =>
+      let p2 := if 0 < t.qty then p1.transactBuy (ofInt t.qty) t.price t.commission
+                else p1.transactSell (ofInt (-t.qty)) t.price t.commission
+      ({ p2 with clock := t.time }, none)
 
 end Position
 
